@@ -2,7 +2,7 @@
 
 Exhaustive over the discrete configuration space (where the branch bugs live) x small numeric alphabets x a grid
 of the physical quantity:
- RTD         wiring {2,3,4} x lead R {0, 0.7} x R0 {100, 1000} x 2 coefficient sets x excitation {1 mA, 0.5 mA}
+ RTD         wiring {2,3,4} x lead R {0, 0.7, 5} x R0 {100, 1000} x 2 coefficient sets x excitation {1 mA, 0.5 mA}
              x T in -200..850 step 0.5 plus +-{1e-3, 1e-6, 1e-9} around 0 (branch switch)
  thermistor  excitation {current, voltage divider} x wiring {2,3,4} x lead R x R1 x 2 Steinhart-Hart sets x
              offset {0, 273.15} x T grid
@@ -143,7 +143,16 @@ def through_file(props, volts):
     raw = ch.read_data(scaled=False)
     if list(raw) != list(volts):
         raise AssertionError('harness: file does not hold the intended voltages')
-    return ch[:]
+    first = ch.read_data(0, n)
+    # the stored voltages are scaled again on every access: a scaling that writes into its input shows up here
+    second = ch[:]
+    third = ch.read_data()
+    if not (np.array_equal(first, second, equal_nan=True) and np.array_equal(second, third, equal_nan=True)):
+        raise AssertionError('repeated scaled reads of the same stored voltages differ: %r / %r / %r'
+                             % (list(first[:3]), list(second[:3]), list(third[:3])))
+    if list(ch.read_data(scaled=False)) != list(volts):
+        raise AssertionError('stored voltages changed after scaling')
+    return second
 
 
 def check(kind, cfg, xs, volts, make, props, res):
@@ -197,7 +206,7 @@ def run_part(item):
         wiring = sub
         step = 0.5 if tier == 'thorough' else 2.5
         Ts = t_grid(-200.0, 850.0, step)
-        for rl, r0, (a, b, c), I in itertools.product((0.0, 0.7), (100.0, 1000.0),
+        for rl, r0, (a, b, c), I in itertools.product((0.0, 0.7, 5.0), (100.0, 1000.0),
                                                        ((3.9083e-3, -5.775e-7, -4.183e-12), (3.9692e-3, -5.8495e-7, -4.2325e-12)),
                                                        (1e-3, 5e-4)):
             k = lead_factor('current', wiring)
